@@ -155,6 +155,12 @@ func runC12(t *fw.T, prog *gen.Node, lay NamedLayout) {
 				po = parseObserved(c.text, i)
 				return
 			}
+			if i%16 == 8 {
+				// the first statement taken by hand through the public API (a tool that looks at the head of a file first), the
+				// rest by ParseProgram on the same parser: what either step reported is reported
+				po = parseHeadByHand(c.text)
+				return
+			}
 			if i%8 == 0 {
 				// the statement loop driven by hand through the public API; errors read from Errors()
 				po = parseByHand(c.text, Mode{})
